@@ -2,6 +2,7 @@
 from __future__ import annotations
 
 import copy as _copy
+import math
 
 from .. import build, gen as G, model as M, mon, pathcases as PC
 from ..core import call
@@ -62,6 +63,8 @@ def change_value(rng, v, pool):
     if type(v) is int:
         return v + rng.choice([1, -1, 2])
     if type(v) is float:
+        if rng.random() < 0.5 and v == v and abs(v) < 1e300:
+            return math.nextafter(v, math.inf)  # the closest other float
         return v + 0.5
     if type(v) is str:
         return v + "x" if v else "a"
@@ -151,7 +154,12 @@ def mutate_cond(rng, t, pool):
 
 def mutate_part(rng, p, keys, vals):
     if p["p"] == "prim":
-        new = change_value(rng, p["v"], keys)
+        v = p["v"]
+        if type(v) in (int, bool) and rng.random() < 0.4:
+            # the same key / index as an explicit part of one kind only, or as a float key
+            alt = rng.choice([{"p": "map", "key": {"prim": v}}, {"p": "list", "index": {"prim": v}}, {"p": "prim", "v": float(v)}])
+            return alt, "part-kind:prim-int"
+        new = change_value(rng, v, keys)
         if new is None:
             new = "zz"
         return {"p": "prim", "v": new}, "key"
@@ -228,6 +236,9 @@ def gen(rng, tier, kind=None):
             cont = rng.choice(G.containers(doc))[1]
             vals, keys = G.pools(cont)
             kinds = rng.choice([["value"], ["value", "key"] if type(cont) is dict else ["value", "index"]])
+            if rng.random() < 0.15:
+                vals = vals + [0.1 + 0.2, 0.3, 2.5, 1e-9, 1.0]
+                cont = list(cont.values()) + [0.1 + 0.2, 0.3] if type(cont) is dict and "key" not in kinds else cont
             x = G.tree(rng, rng.choice([0, 1, 2, 3]), kinds, null_p=0.05, well_typed=rng.random() < 0.7, pool=vals, keypool=keys)
             m = mutate_cond(rng, x, vals + keys)
             if m:
@@ -311,8 +322,11 @@ def strata(tier):
         (L("value", "is_instance", {"$type": "int"}), L("value", "is_instance", {"$type": "bool"}), "arg-value"),
         (L("value", "keys_contain_any_of", "a", "b"), L("value", "keys_contain_any_of", "b", "a"), "arg-order"),
         (L("value", "in_", [1, 2]), L("value", "in_", [2, 1]), "arg-order"),
+        (L("value", "equal_to", 0.3), L("value", "equal_to", 0.1 + 0.2), "arg-value:float-neighbour"),
+        (L("value", "less_than", 0.3), L("value", "less_than", 0.1 + 0.2), "arg-value:float-neighbour"),
+        (L("value", "greater_than_or_equal_to", 1e-9), L("value", "greater_than_or_equal_to", math.nextafter(1e-9, 1)), "arg-value:float-neighbour"),
     ):
-        yield {"kind": "cond", "x": x, "y": y, "atom": atom, "probes": [c01.ZOO_LIST, c01.ZOO_MAP, [1, 1.0, True, 2, 2.5, "a"]]}
+        yield {"kind": "cond", "x": x, "y": y, "atom": atom, "probes": [c01.ZOO_LIST, c01.ZOO_MAP, [1, 1.0, True, 2, 2.5, "a", 0.3, 0.1 + 0.2, 1e-9, math.nextafter(1e-9, 1)]]}
     for x, y, atom in (
         (PC.mkpath([{"p": "prim", "v": "a"}, {"p": "prim", "v": 0}]), PC.mkpath([{"p": "prim", "v": "a"}, {"p": "prim", "v": 1}]), "part:key"),
         (PC.mkpath([{"p": "prim", "v": 1}]), PC.mkpath([{"p": "prim", "v": True}]), "part:key-type"),
@@ -389,8 +403,25 @@ def behaviour(kind, obj, term, probes):
     return out
 
 
+def float_args(t, out):
+    if type(t) is dict:
+        for v in t.values():
+            float_args(v, out)
+    elif type(t) is list:
+        for v in t:
+            float_args(v, out)
+    elif type(t) is float:
+        out.append(t)
+    return out
+
+
 def run(case, ctx):
     kind, xt, yt, atom, probes = case["kind"], case["x"], case["y"], case["atom"], case["probes"]
+    fl = sorted(set(float_args(xt, []) + float_args(yt, [])))
+    if fl and kind == "cond":
+        probes = list(probes) + [fl + [1, "a"], {"a": fl[0], "b": fl[-1]}]
+    elif fl and kind in ("rule", "schema"):
+        probes = list(probes) + [{"a": fl[0], "b": fl[-1], "c": fl}]
     mk = builder(kind)
     ok, objs = call(lambda: (mk(xt), mk(xt), mk(commuter(kind)(xt))))
     if not ok:
